@@ -40,7 +40,7 @@ class VirtualToReal:
       self._import_field_references(previous)
       self._update_field_backreferences(previous)
     else:
-      self._initialize_references_or_undo()
+      self._initialize_references_or_undo(previous)
     self._import_nonfield_references(previous)
     self._update_nonfield_backreferences(previous)
 
